@@ -897,7 +897,7 @@ func c11Reopen(c *h.Ctx, id string, r *rand.Rand) {
 		}
 	}()
 	var mu sync.Mutex
-	var got [][]byte
+	var got, held [][]byte
 	f := stdface.NewStreamFace("unix", path, true)
 	// in half of the cases the restart happens (from another goroutine) while the receive loop is
 	// inside the application's packet callback for the last block of the first connection
@@ -910,6 +910,7 @@ func c11Reopen(c *h.Ctx, id string, r *rand.Rand) {
 		b, _ := rd.ReadBuf(rd.Length())
 		mu.Lock()
 		got = append(got, append([]byte{}, b...))
+		held = append(held, b) // the engine parses blocks without copying and applications keep them
 		n := len(got)
 		mu.Unlock()
 		if int32(n) == holdAt.Load() {
@@ -1000,7 +1001,7 @@ func c11Reopen(c *h.Ctx, id string, r *rand.Rand) {
 	defer srv2.Close()
 	time.Sleep(time.Duration(r.Intn(3)) * time.Millisecond)
 	mu.Lock()
-	got = nil
+	got, held = nil, nil
 	mu.Unlock()
 	second := mkBlocks(5+r.Intn(6), 2)
 	for _, b := range second {
@@ -1018,6 +1019,12 @@ func c11Reopen(c *h.Ctx, id string, r *rand.Rand) {
 		return
 	}
 	c11Compare(c, id, "stream face after close and re-open", second, got, det)
+	for i := range held {
+		if i < len(got) && !bytes.Equal(held[i], got[i]) {
+			c.Violation("C11:stream-face:block-changes-after-later-blocks", id, fmt.Sprintf("block %d handed up by the stream face (kept by the application without copying, as the engine's zero-copy parser does) changed after later blocks arrived", i), det)
+			return
+		}
+	}
 	// the face must still send
 	probe := tlvwalk.TLV(0x81, []byte("after-reopen"))
 	if err := f.Send(enc.Wire{probe}); err != nil {
